@@ -18,4 +18,118 @@ def mod97_97 (b : Str) (n : Nat) : Bool := mod97 (fun r => 97 - r) b n
 def belgium (b : Str) : Bool :=
   b.drop 10 == fmt02 (let r := numVal (b.take 10) 0 % 97; if r ≠ 0 then r else 97)
 
+/-! ### Weighted-sum, Luhn, RIB and CIN rules (ES, FR, MC, IT, SM, FI, NO, PL, EE, CZ, SK, IS)
+
+Each rule is stated over the BBAN *string positions* of the country, as published, with the
+weights written out.  Digit characters stand for their value, and a check character is compared
+as a character (`48 + d` is the character of the digit `d`, `65 + k` the `k`-th letter). -/
+
+/-- Value of a decimal digit character. -/
+def dv (c : Nat) : Nat := c - 48
+
+/-- `Σ wᵢ·dᵢ` over the leading characters of `s` (as many as there are weights). -/
+def wsum : List Nat → Str → Nat
+  | w :: ws, c :: t => w * dv c + wsum ws t
+  | _, _ => 0
+
+/-- Spain: a control digit is `11 − (Σ mod 11)`, with 11 written as 0 and 10 as 1. -/
+def spainDigit (s : Nat) : Nat :=
+  let r := 11 - s % 11
+  if r = 11 then 0 else if r = 10 then 1 else r
+
+/-- ES (20 digits: bank 0–3, branch 4–7, two control digits 8–9, account 10–19): the first control
+    digit protects bank and branch with weights 4,8,5,10,9,7,3,6, the second the account number
+    with weights 1,2,4,8,5,10,9,7,3,6. -/
+def spain (b : Str) : Bool :=
+  slice b 8 10 ==
+    [48 + spainDigit (wsum [4, 8, 5, 10, 9, 7, 3, 6] (slice b 0 8)),
+     48 + spainDigit (wsum [1, 2, 4, 8, 5, 10, 9, 7, 3, 6] (slice b 10 20))]
+
+/-- The RIB letter table: A,J → 1; B,K,S → 2; C,L,T → 3; D,M,U → 4; E,N,V → 5; F,O,W → 6;
+    G,P,X → 7; H,Q,Y → 8; I,R,Z → 9; digits stand for themselves. -/
+def ribTable : List (Nat × Nat) :=
+  [(65, 1), (74, 1), (66, 2), (75, 2), (83, 2), (67, 3), (76, 3), (84, 3), (68, 4), (77, 4), (85, 4),
+   (69, 5), (78, 5), (86, 5), (70, 6), (79, 6), (87, 6), (71, 7), (80, 7), (88, 7),
+   (72, 8), (81, 8), (89, 8), (73, 9), (82, 9), (90, 9)]
+
+def ribVal (c : Nat) : Nat := if c ≤ 57 then c - 48 else (ribTable.lookup c).getD 0
+
+/-- The number spelled by a text after replacing letters through the RIB table. -/
+def ribNum : Str → Nat → Nat
+  | [], acc => acc
+  | c :: t, acc => ribNum t (acc * 10 + ribVal c)
+
+/-- FR, MC (23 characters: bank 0–4, branch 5–9, account 10–20, key 21–22): the RIB key is
+    `97 − (N·100 mod 97)` where `N` is the number spelled by the first 21 characters (letters
+    replaced through the table), written with two digits. -/
+def france (b : Str) : Bool :=
+  b.drop 21 == fmt02 (97 - (ribNum (b.take 21) 0 * 100) % 97)
+
+/-- CIN: value of a character in an even position (digits and letters count from 0). -/
+def cinVal (c : Nat) : Nat := if c ≤ 57 then c - 48 else c - 65
+
+/-- CIN: value of a character in an odd position (1st, 3rd, …), indexed by `cinVal`. -/
+def cinOdd : List Nat :=
+  [1, 0, 5, 7, 9, 13, 15, 17, 19, 21, 2, 4, 18, 20, 11, 3, 6, 8, 12, 14, 16, 10, 22, 25, 24, 23]
+
+/-- Sum of the CIN values; `i` is the 0-based index of the first character of `s`. -/
+def cinSum : Str → Nat → Nat
+  | [], _ => 0
+  | c :: t, i => (if i % 2 = 0 then cinOdd.getD (cinVal c) 0 else cinVal c) + cinSum t (i + 1)
+
+/-- IT, SM (23 characters: CIN 0, ABI 1–5, CAB 6–10, account 11–22): the CIN is the letter whose
+    index is the sum of the values of the 22 characters after it, modulo 26. -/
+def italy (b : Str) : Bool :=
+  b.take 1 == [65 + cinSum (slice b 1 23) 0 % 26]
+
+/-- Luhn sum, `s` given from the right: every second digit starting with the rightmost is
+    doubled, and the digits of the products are added. -/
+def luhnR : Str → Nat → Nat
+  | [], _ => 0
+  | c :: t, i =>
+    (let p := dv c * (if i % 2 = 0 then 2 else 1); p / 10 + p % 10) + luhnR t (i + 1)
+
+/-- FI (14 digits: bank 0–2, account 3–12, check digit 13): Luhn over the first 13 digits. -/
+def finland (b : Str) : Bool :=
+  b.drop 13 == [48 + (10 - luhnR (b.take 13).reverse 0 % 10) % 10]
+
+/-- NO: the weighted sum that the check digit protects — the ten digits before it with weights
+    5,4,3,2,7,6,5,4,3,2, or, for account numbers whose account part starts with `00`, the last
+    four of them with weights 5,4,3,2. -/
+def norwaySum (b : Str) : Nat :=
+  if slice b 4 6 == [48, 48] then wsum [5, 4, 3, 2] (slice b 6 10)
+  else wsum [5, 4, 3, 2, 7, 6, 5, 4, 3, 2] (slice b 0 10)
+
+/-- NO: no check digit exists when `11 − (Σ mod 11)` is 10. -/
+def norwayUnusable (b : Str) : Bool := 11 - norwaySum b % 11 == 10
+
+/-- NO (11 digits: bank 0–3, account 4–9, check digit 10): the check digit is `11 − (Σ mod 11)`,
+    11 written as 0; 10 is unusable. -/
+def norway (b : Str) : Bool :=
+  !norwayUnusable b && b.drop 10 == [48 + (11 - norwaySum b % 11) % 11]
+
+/-- PL (24 digits: bank 0–2, branch 3–6, check digit 7, account 8–23): the eighth digit of the
+    sort code is `(10 − Σ mod 10) mod 10` over the first seven with weights 3,9,7,1,3,9,7. -/
+def poland (b : Str) : Bool :=
+  slice b 7 8 == [48 + (10 - wsum [3, 9, 7, 1, 3, 9, 7] (slice b 0 7) % 10) % 10]
+
+/-- EE (16 digits: bank 0–1, branch 2–3, account 4–14, check digit 15): method 7-3-1 from the
+    right over branch and account number. -/
+def estonia (b : Str) : Bool :=
+  b.drop 15 ==
+    [48 + (10 - wsum [7, 3, 1, 7, 3, 1, 7, 3, 1, 7, 3, 1, 7] (slice b 2 15).reverse % 10) % 10]
+
+/-- CZ, SK (20 digits: bank 0–3, prefix 4–9, account 10–19): prefix and account number are each
+    divisible by 11 under the weights 6,3,7,9,10,5,8,4,2,1 (the prefix uses the last six). -/
+def czech (b : Str) : Bool :=
+  wsum [10, 5, 8, 4, 2, 1] (slice b 4 10) % 11 == 0 &&
+  wsum [6, 3, 7, 9, 10, 5, 8, 4, 2, 1] (slice b 10 20) % 11 == 0
+
+/-- IS (22 digits; the holder's kennitala is 12–21): its ninth digit is `11 − (Σ mod 11)` over
+    the first eight with weights 3,2,7,6,5,4,3,2 (0 when the sum is divisible by 11); a
+    remainder of 1 admits no check digit. -/
+def iceland (b : Str) : Bool :=
+  let r := wsum [3, 2, 7, 6, 5, 4, 3, 2] (slice b 12 22) % 11
+  r != 1 && slice b 20 21 == [48 + (if r = 0 then 0 else 11 - r)]
+
 end SV.Spec
